@@ -9,7 +9,7 @@
 
 enum c16_opkind {
 	OP_DIR, OP_DATA, OP_BIGDATA, OP_KERNEL, OP_PERF, OP_META, OP_INFO,
-	OP_TASKFILE, OP_MAPFILES, OP_SYMFILES, OP_DBGFILES, OP_END, OP_SLEEP, OP_RAW,
+	OP_TASKFILE, OP_MAPFILES, OP_SYMFILES, OP_DBGFILES, OP_END, OP_SLEEP, OP_RAW, OP_ABORT,
 };
 
 struct c16_op {
@@ -29,6 +29,8 @@ struct c16_sched {
 
 struct c16_client {
 	int idx;
+	int after; /* >= 0: the server accepts this connection only when client `after` has been closed, on the SAME
+		      descriptor number (accept() returns the lowest free one); -1: connected from the start */
 	char *localdir;
 	char *capfile;
 	struct c16_sched wsched; /* socket write()/writev(): -1 = EINTR, k >= 0: at most k bytes */
